@@ -235,11 +235,327 @@ def _expand_name(f: Func, e):
     return e
 
 
-def _is_xor_expr(f: Func, e) -> bool:
-    e = _expand_name(f, e)
-    if isinstance(e, ast.BinOp) and isinstance(e.op, ast.BitXor):
+# --- the exact-parameter component, decided on a bounded model --------------
+#
+# Criterion (3) is a function of the two parameter-NAME sets only: one value
+# when they are equal, a smaller one when they differ.  However the source
+# spells it (`0 if a ^ b else 1`, `a == b`, `not a.symmetric_difference(b)`,
+# `a <= b and b <= a`, `len(a ^ b) == 0`, an if/else that assigns constants),
+# the expression is *evaluated* here - by an interpreter of the enumerated
+# expression language below, never by running falcon code - on every pair of
+# name sets over a three-name universe that is consistent with the tests
+# dominating the return.  A pair of equal sets and a pair of different sets
+# with the same value (or two pairs of one kind with different values) is a
+# concrete counter-example, so a violation always carries real inputs.
+# Anything outside the language is an unknown idiom, never a violation.
+#
+# Frozen look-alike table (DESIGN 1.3 item 5): substitutes that read like the
+# exact test and are not.  The model finds the witness; the table only names
+# the family in the message.
+EXACT_LOOKALIKES = {
+    'sizes': 'it is derived from the two parameter collections only through len() - equal SIZES do not mean equal name sets '
+             '(same number of parameters under different names)',
+    'other': 'it does not separate "same parameter names" from "different parameter names"',
+}
+
+_MODEL_UNIVERSE = ('a', 'b', 'c')
+
+
+class _OutOfModel(Exception):
+    """expression outside the enumerated language -> UnknownIdiom at the caller"""
+
+
+class _PDict:
+    """the parameter mapping of one side (names only; values are not modelled)"""
+    __slots__ = ('names',)
+
+    def __init__(self, names):
+        self.names = frozenset(names)
+
+
+class _PView(_PDict):
+    """dict.keys() of a parameter mapping: set-like for operators, no set methods"""
+    __slots__ = ()
+
+
+_SET_OPS = {ast.BitXor: frozenset.__xor__, ast.BitAnd: frozenset.__and__, ast.BitOr: frozenset.__or__, ast.Sub: frozenset.__sub__}
+_SET_METHODS = {'symmetric_difference': frozenset.symmetric_difference, 'intersection': frozenset.intersection,
+                'union': frozenset.union, 'difference': frozenset.difference, 'issubset': frozenset.issubset,
+                'issuperset': frozenset.issuperset, 'isdisjoint': frozenset.isdisjoint}
+_CMP_OPS = {ast.Eq: lambda a, b: a == b, ast.NotEq: lambda a, b: a != b, ast.Lt: lambda a, b: a < b, ast.LtE: lambda a, b: a <= b,
+            ast.Gt: lambda a, b: a > b, ast.GtE: lambda a, b: a >= b}
+
+
+def _is_number(v) -> bool:
+    return isinstance(v, (int, float))       # bool included: True == 1 in a score tuple
+
+
+class _ParamModel:
+    """Interpreter for expressions over the two parameter collections of
+    match_score (`self.params`, `<other>.params`).
+
+    language: numeric constants; `X.params`; frozenset()/set()/dict()/.keys()/
+    .copy() of a collection; set operators ^ & | - and the corresponding set
+    methods; issubset/issuperset/isdisjoint; len()/bool()/int()/abs(); + and -
+    on numbers; unary not/-; and/or (Python value semantics); comparisons
+    between two numbers or between two set-likes; conditional expressions;
+    locals bound once at the top level of the function, or bound to values in
+    the branches of one top-level if-statement (optionally after a default)."""
+
+    def __init__(self, roles: _Roles, other: str):
+        self.roles = roles
+        self.f = roles.f
+        self.other = other
+
+    # -- values
+    @staticmethod
+    def _names(v) -> frozenset:
+        if isinstance(v, _PDict):
+            return v.names
+        if isinstance(v, frozenset):
+            return v
+        raise _OutOfModel('not a collection')
+
+    @staticmethod
+    def _setlike(v) -> bool:
+        return isinstance(v, (frozenset, _PView))
+
+    def _truth(self, v) -> bool:
+        if _is_number(v):
+            return bool(v)
+        return bool(self._names(v))
+
+    # -- expressions
+    def value(self, e, A: frozenset, B: frozenset):
+        self._A, self._B, self._busy = A, B, set()
+        v = self._ev(e, 0)
+        if not _is_number(v):
+            raise _OutOfModel('%s is not a number' % short(e, 40))
+        return v
+
+    def _ev(self, e, depth):
+        if depth > 40:
+            raise _OutOfModel('expression too deep')
+        e = _unwrap_cast(e)
+        d = depth + 1
+        if isinstance(e, ast.Constant):
+            if _is_number(e.value):
+                return e.value
+            raise _OutOfModel('constant %r' % (e.value,))
+        if isinstance(e, ast.Attribute):
+            if e.attr == 'params' and isinstance(e.value, ast.Name) and e.value.id in ('self', self.other):
+                return _PDict(self._A if e.value.id == 'self' else self._B)
+            raise _OutOfModel('attribute %s' % short(e, 40))
+        if isinstance(e, ast.Name):
+            return self._name(e, d)
+        if isinstance(e, ast.UnaryOp):
+            v = self._ev(e.operand, d)
+            if isinstance(e.op, ast.Not):
+                return not self._truth(v)
+            if isinstance(e.op, (ast.USub, ast.UAdd)) and _is_number(v):
+                return -v if isinstance(e.op, ast.USub) else +v
+            raise _OutOfModel('operator in %s' % short(e, 40))
+        if isinstance(e, ast.BoolOp):
+            v = None
+            for x in e.values:
+                v = self._ev(x, d)
+                if self._truth(v) != isinstance(e.op, ast.And):
+                    return v
+            return v
+        if isinstance(e, ast.IfExp):
+            return self._ev(e.body if self._truth(self._ev(e.test, d)) else e.orelse, d)
+        if isinstance(e, ast.BinOp):
+            l, r = self._ev(e.left, d), self._ev(e.right, d)
+            if self._setlike(l) and self._setlike(r) and type(e.op) in _SET_OPS:
+                return _SET_OPS[type(e.op)](self._names(l), self._names(r))
+            if _is_number(l) and _is_number(r) and isinstance(e.op, (ast.Add, ast.Sub)):
+                return l + r if isinstance(e.op, ast.Add) else l - r
+            raise _OutOfModel('operator in %s' % short(e, 40))
+        if isinstance(e, ast.Compare):
+            left = self._ev(e.left, d)
+            for op, ce in zip(e.ops, e.comparators):
+                right = self._ev(ce, d)
+                fn = _CMP_OPS.get(type(op))
+                if fn is None:
+                    raise _OutOfModel('comparison in %s' % short(e, 40))
+                if _is_number(left) and _is_number(right):
+                    res = fn(left, right)
+                elif self._setlike(left) and self._setlike(right):
+                    res = fn(self._names(left), self._names(right))
+                else:
+                    raise _OutOfModel('comparison of unlike operands in %s' % short(e, 40))
+                if not res:
+                    return False
+                left = right
+            return True
+        if isinstance(e, ast.Call):
+            return self._call(e, d)
+        raise _OutOfModel('construct %s' % short(e, 40))
+
+    def _call(self, e: ast.Call, d):
+        if e.keywords or any(isinstance(a, ast.Starred) for a in e.args):
+            raise _OutOfModel('call %s' % short(e, 40))
+        if isinstance(e.func, ast.Name):
+            if _assignments(self.f.node, e.func.id):
+                raise _OutOfModel('call of a local %s' % e.func.id)
+            fn = e.func.id
+            if fn in ('frozenset', 'set') and not e.args:
+                return frozenset()
+            if len(e.args) != 1:
+                raise _OutOfModel('call %s' % short(e, 40))
+            v = self._ev(e.args[0], d)
+            if fn in ('frozenset', 'set'):
+                return self._names(v)
+            if fn == 'dict' and type(v) is _PDict:
+                return v
+            if fn == 'len' and not _is_number(v):
+                return len(self._names(v))
+            if fn == 'bool':
+                return self._truth(v)
+            if fn == 'int' and isinstance(v, int):
+                return int(v)
+            if fn == 'abs' and _is_number(v):
+                return abs(v)
+            raise _OutOfModel('call %s' % short(e, 40))
+        if isinstance(e.func, ast.Attribute):
+            recv = self._ev(e.func.value, d)
+            m = e.func.attr
+            if not e.args:
+                if m == 'keys' and type(recv) is _PDict:
+                    return _PView(recv.names)
+                if m == 'copy' and (type(recv) is _PDict or isinstance(recv, frozenset)):
+                    return recv
+                raise _OutOfModel('call %s' % short(e, 40))
+            if len(e.args) == 1 and m in _SET_METHODS and (isinstance(recv, frozenset) or (m == 'isdisjoint' and type(recv) is _PView)):
+                arg = self._ev(e.args[0], d)
+                if _is_number(arg):
+                    raise _OutOfModel('call %s' % short(e, 40))
+                return _SET_METHODS[m](self._names(recv), self._names(arg))
+        raise _OutOfModel('call %s' % short(e, 40))
+
+    # -- locals
+    def _chain(self, stmt) -> list:
+        out = []
+        cur = self.roles.parent.get(id(stmt))
+        while cur is not None and cur is not self.f.node:
+            out.append(cur)
+            cur = self.roles.parent.get(id(cur))
+        if cur is None:
+            raise _OutOfModel('statement outside the function')
+        return out
+
+    def _name(self, e: ast.Name, d):
+        name = e.id
+        if name in self._busy:
+            raise _OutOfModel('%s is defined in terms of itself' % name)
+        binds = _assignments(self.f.node, name)
+        if not binds:
+            raise _OutOfModel('%s is not a local' % name)
+        if any(v is None or not isinstance(s, (ast.Assign, ast.AnnAssign)) for s, v in binds):
+            raise _OutOfModel('binding of %s' % name)
+        self._busy.add(name)
+        try:
+            chains = [(s, v, self._chain(s)) for s, v in binds]
+            if len(chains) == 1 and not chains[0][2]:
+                return self._ev(chains[0][1], d)
+            tops, defaults = [], []
+            for s, v, ch in chains:
+                if not ch:
+                    defaults.append((s, v))
+                elif all(isinstance(c, ast.If) for c in ch):
+                    if not any(ch[-1] is t for t in tops):
+                        tops.append(ch[-1])
+                else:
+                    raise _OutOfModel('%s is bound inside %s' % (name, type([c for c in ch if not isinstance(c, ast.If)][0]).__name__))
+            if len(tops) != 1 or len(defaults) > 1:
+                raise _OutOfModel('bindings of %s are spread over several statements' % name)
+            top = tops[0]
+            body = self.f.node.body
+            box = [_UNSET_VALUE]
+            if defaults:
+                ds, dv = defaults[0]
+                if [i for i, s in enumerate(body) if s is ds][0] > [i for i, s in enumerate(body) if s is top][0]:
+                    raise _OutOfModel('%s is re-bound after its if-statement' % name)
+                box[0] = self._ev(dv, d)
+            self._exec([top], name, box, d)
+            if box[0] is _UNSET_VALUE:
+                raise _OutOfModel('%s may be unbound' % name)
+            return box[0]
+        finally:
+            self._busy.discard(name)
+
+    def _exec(self, stmts, name, box, d):
+        for s in stmts:
+            if isinstance(s, ast.If):
+                self._exec(s.body if self._truth(self._ev(s.test, d)) else s.orelse, name, box, d)
+            elif isinstance(s, ast.Assign) and len(s.targets) == 1 and isinstance(s.targets[0], ast.Name):
+                if s.targets[0].id == name:
+                    box[0] = self._ev(s.value, d)
+            elif isinstance(s, ast.AnnAssign) and isinstance(s.target, ast.Name):
+                if s.target.id == name and s.value is not None:
+                    box[0] = self._ev(s.value, d)
+            elif isinstance(s, ast.Pass) or (isinstance(s, ast.Expr) and isinstance(s.value, ast.Constant)):
+                pass
+            else:
+                raise _OutOfModel('statement %s beside the binding of %s' % (short(s, 40), name))
+
+
+_UNSET_VALUE = object()
+
+
+def _subsets(universe):
+    out = [frozenset()]
+    for x in universe:
+        out += [s | {x} for s in out]
+    return sorted(out, key=lambda s: (len(s), sorted(s)))
+
+
+def _show_set(s) -> str:
+    return '{%s}' % ', '.join(sorted(s)) if s else '{}'
+
+
+def _sizes_only(f: Func, other: str, e, depth=0) -> bool:
+    """every use of a parameter collection in `e` is the argument of len()"""
+    if depth > 12:
+        return False
+    if isinstance(e, ast.Call) and isinstance(e.func, ast.Name) and e.func.id == 'len' and len(e.args) == 1 and not e.keywords \
+            and _params_side(f, e.args[0], other):
         return True
-    return isinstance(e, ast.Call) and isinstance(e.func, ast.Attribute) and e.func.attr == 'symmetric_difference'
+    if _params_side(f, e, other):
+        return False
+    if isinstance(e, ast.Name):
+        binds = _assignments(f.node, e.id)
+        if not binds:
+            return True
+        return all(v is not None and _sizes_only(f, other, v, depth + 1) for _, v in binds)
+    return all(_sizes_only(f, other, c, depth + 1) for c in ast.iter_child_nodes(e) if isinstance(c, ast.expr))
+
+
+class _ExactVerdict:
+    """What the exact-parameter component evaluates to on the modelled pairs."""
+
+    def __init__(self, rows, unreadable):
+        self.rows = rows                       # [(A, B, value)]
+        self.unreadable = unreadable
+        self.eq = sorted({v for a, b, v in rows if a == b})
+        self.ne = sorted({v for a, b, v in rows if a != b})
+        self.sig = frozenset((a, b) for a, b, _ in rows)
+        self.exact = len(self.eq) == 1 and len(self.ne) == 1 and self.eq != self.ne
+
+    def counterexample(self) -> List[str]:
+        def row(a, b, v):
+            return 'range parameters %s, media-type parameters %s -> component = %r' % (_show_set(a), _show_set(b), v)
+        for a, b, v in self.rows:
+            if a != b and v in self.eq:
+                a0, b0, _ = [r for r in self.rows if r[0] == r[1] and r[2] == v][0]
+                return [row(a0, b0, v) + '  (same names)', row(a, b, v) + '  (different names, same value)']
+        for kind, vals in (('same names', self.eq), ('different names', self.ne)):
+            if len(vals) > 1:
+                rs = [r for r in self.rows if (r[0] == r[1]) == (kind == 'same names')]
+                first = rs[0]
+                second = [r for r in rs if r[2] != first[2]][0]
+                return [row(*first) + '  (%s)' % kind, row(*second) + '  (%s, another value)' % kind]
+        return []
 
 
 # --- literal components of a real score ------------------------------------
